@@ -1,7 +1,7 @@
 use crate::xtype::{X_BOOL, X_STRING, X_UNKNOWN};
-use crate::{CompilationError, RootCompilationScope, XFuncSpec};
+use crate::{xraise, CompilationError, RootCompilationScope, XFuncSpec};
 
-use crate::builtin::core::{unpack_dyn_types, xerr};
+use crate::builtin::core::{eval, unpack_dyn_types, xerr};
 use crate::xvalue::{ManagedXError, XFunctionFactoryOutput};
 
 pub(crate) fn add_unknown_eq<W, R, T>(
@@ -22,7 +22,13 @@ pub(crate) fn add_unknown_eq<W, R, T>(
 
         Ok(XFunctionFactoryOutput::from_native(
             XFuncSpec::new(&[&X_UNKNOWN, &X_UNKNOWN], X_BOOL.clone()).short_circuit_overloads(),
-            move |_args, _ns, _tca, rt| xerr(ManagedXError::new("unknown eq applied", rt)?),
+            move |args, ns, _tca, rt| {
+                // an argument of the bottom type is an error value: it is the result (the leftmost one)
+                for a in args {
+                    xraise!(eval(a, ns, &rt)?);
+                }
+                xerr(ManagedXError::new("unknown eq applied", rt)?)
+            },
         ))
     })
 }
@@ -43,7 +49,13 @@ pub(crate) fn add_unknown_to_str<W, R, T>(
 
         Ok(XFunctionFactoryOutput::from_native(
             XFuncSpec::new(&[&X_UNKNOWN], X_STRING.clone()).short_circuit_overloads(),
-            move |_args, _ns, _tca, rt| xerr(ManagedXError::new("unknown to_str applied", rt)?),
+            move |args, ns, _tca, rt| {
+                // an argument of the bottom type is an error value: it is the result (the leftmost one)
+                for a in args {
+                    xraise!(eval(a, ns, &rt)?);
+                }
+                xerr(ManagedXError::new("unknown to_str applied", rt)?)
+            },
         ))
     })
 }
@@ -64,7 +76,13 @@ pub(crate) fn add_unknown_hash<W, R, T>(
 
         Ok(XFunctionFactoryOutput::from_native(
             XFuncSpec::new(&[&X_UNKNOWN], X_STRING.clone()).short_circuit_overloads(),
-            move |_args, _ns, _tca, rt| xerr(ManagedXError::new("unknown hash applied", rt)?),
+            move |args, ns, _tca, rt| {
+                // an argument of the bottom type is an error value: it is the result (the leftmost one)
+                for a in args {
+                    xraise!(eval(a, ns, &rt)?);
+                }
+                xerr(ManagedXError::new("unknown hash applied", rt)?)
+            },
         ))
     })
 }
